@@ -262,4 +262,13 @@ MUTANTS = [
     M("c10.3-we-lane", "C10", "C10.3", WBF, "wr_chunk_we[i*wishbone_sel_width:(i + 1)*wishbone_sel_width].eq(wishbone.sel),", "wr_chunk_we[:wishbone_sel_width].eq(wishbone.sel),"),
     M("c10.3-noclear", "C10", "C10.3", WBF, "                NextValue(wr_sel,   0),\n", ""),
     M("c10.4-offset", "C10", "C10.4", WBF, "offset  = base_address >> log2_int(port.data_width//8)", "offset  = base_address >> log2_int(port.data_width)"),
+    # ---- C11 ----
+    M("c11.1-count-1", "C11", "C11.1", AVF, "NextValue(cmd_ready_count, avalon.burstcount),", "NextValue(cmd_ready_count, avalon.burstcount - 1),"),
+    M("c11.1-exit", "C11", "C11.1", AVF, "                If(burst_count == 1,\n                    NextState(\"START\")", "                If(burst_count == 2,\n                    NextState(\"START\")"),
+    M("c11.1-rdvalid", "C11", "C11.1", AVF, "avalon.readdatavalid.eq(port.rdata.valid),", "avalon.readdatavalid.eq(port.rdata.valid | port.cmd.ready),"),
+    M("c11.2-data-valid", "C11", "C11.2", AVF, "wdata_fifo.sink.valid.eq(avalon.write & ~avalon.waitrequest),", "wdata_fifo.sink.valid.eq(avalon.write),"),
+    M("c11.2-waitreq", "C11", "C11.2", AVF, "avalon.waitrequest.eq(~(cmd_fifo.sink.ready & wdata_fifo.sink.ready)),", "avalon.waitrequest.eq(~cmd_fifo.sink.ready),"),
+    M("c11.2-cmd-nodata", "C11", "C11.2", AVF, "port.cmd.valid.eq(cmd_fifo.source.valid & (0 < wdata_fifo.level)),", "port.cmd.valid.eq(cmd_fifo.source.valid),"),
+    M("c11.3-latch", "C11", "C11.3", AVF, "                writedata.eq(avalon.writedata),\n", ""),
+    M("c11.4-offset", "C11", "C11.4", AVF, "address.eq(avalon.address - address_offset),", "address.eq(avalon.address),"),
 ]
